@@ -167,8 +167,9 @@ def c11_churn(rng, sid, nscen):
     """share-group membership churn followed by numbered publications (each publication must reach exactly one
     current member per matching group, plus every matching non-shared subscription)"""
     out = []
-    groups = ["$share/g1/t", "$share/g2/t", "$share/g1/+", "$share/g1/t/#", "$share/g2/#", "$share/g1/$s/x"]
-    plain = ["t", "#", "t/#", "$s/x"]
+    groups = ["$share/g1/t", "$share/g2/t", "$share/g1/+", "$share/g1/t/#", "$share/g2/#", "$share/g1/$s/x",
+              "$share/g2/$s/+", "$share/g1/$s/#", "$share/g2/+/x"]
+    plain = ["t", "#", "t/#", "$s/x", "$s/#"]
     topics = ["t", "t/u", "x", "$s/x"]
     for i in range(nscen):
         steps = []
